@@ -11,6 +11,7 @@ import DriverLib.Sig
 import DriverLib.Start
 import DriverLib.Tasks
 import DriverLib.Factory
+import DriverLib.Runner
 
 open Lean Asphalt
 
@@ -158,6 +159,7 @@ def dispatch (j : Json) : Except String Json := do
   | "startup" => runStartup j
   | "tasks" => runTasks j
   | "factory" => runFactory j
+  | "runner" => runRunner j
   | _ => throw s!"unknown kind {kind}"
 
 end Drv
